@@ -320,15 +320,21 @@ func (c *opsCase) gateEdit() {
 	if len(offs) == 0 {
 		return
 	}
-	nav, ok := navOps(c.pj, "t", c.name(), offs[r.intn(len(offs))])
+	target := offs[r.intn(len(offs))]
+	nav, ok := navOps(c.pj, "t", c.name(), target)
 	if !ok {
+		return
+	}
+	op := r.pick([]string{"setnull t", "setint t 5", "setuint t 5", "setfloat t 3ff0000000000000", "setstr t 78", "setbool t 1"})
+	if op == "setnull t" && byte(c.pj.Tape[target]>>56) == 'r' {
+		// known finding D10: SetNull accepts root entries. Exercised by the corpus case only, because it
+		// destroys the root structure and everything read afterwards.
 		return
 	}
 	for _, op := range nav {
 		c.emit(op)
 	}
 	before := c.st.exec("tape " + c.name())
-	op := r.pick([]string{"setnull t", "setint t 5", "setuint t 5", "setfloat t 3ff0000000000000", "setstr t 78", "setbool t 1"})
 	c.emit(op)
 	c.expectLast("err")
 	c.emit("tape " + c.name())
@@ -780,6 +786,11 @@ func corpusOps(rn *runner) {
 		"parse q 0 1 " + hx([]byte("[-0]")), "iter j q", "marshal j"}}
 	tc.expect = map[int]string{2: hx([]byte("[-0]")), 5: hx([]byte("[-0]"))}
 	rn.add(tc)
+	// D10: SetNull on a root entry succeeds although the documentation does not list roots
+	tc2 := &testCase{note: "setnull-on-root", ops: []string{
+		"parse p 1 1 " + hx([]byte("{\"a\":1}\n[2]")), "iter t p", "advinto t", "setnull t"}}
+	tc2.expect = map[int]string{3: "err"}
+	rn.add(tc2)
 }
 
 func suiteOps(rn *runner, r *rng, tier string) {
